@@ -157,6 +157,18 @@ REGISTRY = {
         "rule": "random tables for all 30 k x both widths (0-200 rows, 1-5 samples, all stored symbols; k>=33 families whose k-mers all fit in 64 bits; thorough: thousands of k-mers over several compression frames): saved by the real code, raw CBOR decoded + re-encoded by the model byte for byte; CLI merge in both orders and map/weed/nk/distance/align on 64-bit-fitting k>=33 files; non-trivial = tables with at least one k-mer",
         "trusted_base": COMMON_TRUST, "assumptions": [EXTERNAL, "Snappy compression (write side) and serde derive are exercised, not modelled"],
     },
+    "C17": {
+        "level": "exploration", "modules": ["SkaModel.Props.C17"], "gen": ["C17"], "cli": [cli.c17_cli],
+        "rule": "helper inputs (columns over A/C/G/T/-/N, variant groups, writer inputs with and without a genome) vs the model; build_graph on canonical tables vs the model; CLI: planted isolated-SNP families ((k-1)-mers unique on both strands, checked; SNPs >= 2k apart and from the ends; 3-10 samples; k 7-33; threads 1-8; with and without reference) with expected = planted truth, and arbitrary families (close SNPs, indels, missing data, several -m) for well-formedness; non-trivial = distinct helper cases with a value / families that ran",
+        "trusted_base": COMMON_TRUST + ["hooked private helpers (feature verif-hooks): complement_snp, get_potential_snp, create_fasta_and_vcf, check_missing_data"],
+        "assumptions": [EXTERNAL, "graph compaction, bounded DFS and greedy de-duplication are not modelled: completeness/exactness for planted families is decided by oracle runs, not by theorem"],
+    },
+    "C18": {
+        "level": "exploration", "modules": ["SkaModel.Props.C18"], "gen": ["C18"], "cli": [cli.c18_cli],
+        "rule": "insert extraction inputs vs the model; CLI: planted isolated indels (length 1-10, >= 4k apart, (k-1)-mers unique per sample), k in {11,15,21,31}, 3-8 samples, threads 1-4; every VCF record checked by substring search (carriers of REF/ALT exactly the genotyped samples, one planted indel each, none twice), recall measured; non-trivial = families that ran",
+        "trusted_base": COMMON_TRUST + ["hooked private helper (feature verif-hooks): extract_middle_bases"],
+        "assumptions": [EXTERNAL, "the traversal that finds indel bubbles is not modelled: reality of calls and recall are decided by oracle runs, not by theorem"],
+    },
     "C19": {
         "level": "fault_enumeration", "modules": ["SkaModel.Props.C19"], "gen": [], "cli": [cli.c19_cli],
         "rule": "complete enumeration of every truncation point and every single-bit flip of concrete .skf files (64- and 128-bit; thorough: also a multi-frame file at byte stride 9) through the real loader with the lib.rs dispatch; each fault is a distinct non-trivial case; the frame-decoder model is cross-checked against snap on a subset; random faults through every CLI subcommand",
